@@ -636,7 +636,7 @@ def run_check(P, tier="quick", seed=0, replay=None):
             "lean_sources_hash": audit["lean_hash"][:16],
             "explanation": prop.__doc__ or "",
         },
-        "assumptions": list(prop.assumptions),
+        "assumptions": [prop.level_note] * bool(prop.level_note) + list(prop.assumptions),
         "wall_s": round(wall, 2),
         "violations": violations,
     }
